@@ -385,6 +385,8 @@ def result_of(job, rec):
         return {'h5': h5_content(a['out'])}
     if st == 'qmarkers':
         return {'lookup': rec['returned']}
+    if st == 'assign':
+        return {'assignments': rec['returned']}
     raise ValueError(st)
 
 
@@ -419,12 +421,46 @@ def plant_stale(dirs, seed):
                 (d / fn).write_text(STALE_TEXT)
 
 
-def _pre(job):
+def chunk_files(cells, chunk_size):
+    """What the workers of election.run_type_assignment_on_h5ad_cpu leave in the buffer directory of a
+    run over `cells` (the list the stage returned) with row chunks of `chunk_size`:
+    {'<r0>_<r1>_assignment.json': text}.  (`directly_assigned` is added by the stage after the
+    files have been collected, so it is not in them.)"""
+    out = {}
+    for r0 in range(0, len(cells), chunk_size):
+        r1 = min(len(cells), r0 + chunk_size)
+        blob = []
+        for c in cells[r0:r1]:
+            c = json.loads(json.dumps(c))
+            for v in c.values():
+                if isinstance(v, dict):
+                    v.pop('directly_assigned', None)
+            blob.append(c)
+        out[f'{r0}_{r1}_assignment.json'] = json.dumps(blob)
+    return out
+
+
+def _pre(job, returned=None):
     pre = job.get('pre') or {}
     if pre.get('plant'):
         plant_stale(pre['plant']['dirs'], pre['plant']['seed'])
     for p, text in (pre.get('write') or {}).items():
         pathlib.Path(p).write_text(text)
+    for d in pre.get('mkdirs') or []:
+        pathlib.Path(d).mkdir(parents=True, exist_ok=True)
+    sc = pre.get('stale_chunks')
+    if sc:
+        # the per-chunk files an earlier run (label sc['from'], executed by this child) would have left
+        # behind had it been killed before collecting them, in every given buffer directory
+        cells = (returned or {}).get(sc['from'])
+        if cells is None:
+            raise RuntimeError(f"stale_chunks: no returned value of run {sc['from']}")
+        files = chunk_files(cells, int(sc['chunk_size']))
+        for d in sc['dirs']:
+            d = pathlib.Path(d)
+            d.mkdir(parents=True, exist_ok=True)
+            for fn, text in files.items():
+                (d / fn).write_text(text)
 
 
 # ------------------------------------------------------------------ child side
@@ -501,6 +537,34 @@ def _run_stage(job):
                                                          behemoth_cutoff=a['behemoth_cutoff'],
                                                          tmp_dir=a['tmp_dir'])
         return {k: v for k, v in lookup.items() if k not in ('metadata', 'log')}
+    if st == 'assign':
+        # the stage run_mapping calls (cli/from_specified_markers.py:_run_mapping), called directly
+        import h5py
+        import numpy as np
+        from cell_type_mapper.taxonomy.taxonomy_tree import TaxonomyTree
+        from cell_type_mapper.type_assignment.election_runner import run_type_assignment_on_h5ad
+        from cell_type_mapper.utils.utils import clean_for_json
+        with h5py.File(a['stats'], 'r') as f:
+            tree = TaxonomyTree.from_str(serialized_dict=f['taxonomy_tree'][()].decode('utf-8'))
+        lookup = {level: a['bootstrap_factor'] for level in tree.hierarchy[:-1]}
+        lookup['None'] = a['bootstrap_factor']
+        result = run_type_assignment_on_h5ad(
+            query_h5ad_path=pathlib.Path(a['query']),
+            precomputed_stats_path=pathlib.Path(a['stats']),
+            marker_gene_cache_path=pathlib.Path(a['marker_cache']),
+            taxonomy_tree=tree,
+            n_processors=a['n_processors'],
+            chunk_size=a['chunk_size'],
+            bootstrap_factor_lookup=lookup,
+            bootstrap_iteration=a['bootstrap_iteration'],
+            rng=np.random.default_rng(a['rng_seed']),
+            n_assignments=a['n_assignments'],
+            normalization=a['normalization'],
+            tmp_dir=a['tmp_dir'],
+            log=None,
+            max_gb=1,
+            results_output_path=a['results_output_path'])
+        return json.loads(json.dumps(clean_for_json(result)))
     raise ValueError(st)
 
 
@@ -514,9 +578,23 @@ def child_main(jobfile):
     import cell_type_mapper.diff_exp.precompute_from_anndata  # noqa: F401
     import cell_type_mapper.diff_exp.markers  # noqa: F401
     import cell_type_mapper.type_assignment.marker_cache_v2  # noqa: F401
+    import cell_type_mapper.type_assignment.election_runner  # noqa: F401
+    import tempfile
+    returned = {}
+    home = os.getcwd()
     for job in spec['jobs']:
-        _pre(job)
+        _pre(job, returned)
         rec = {'label': job['label'], 'ok': True, 'error': None}
+        # what `TMPDIR=<dir> python ...` started in directory <cwd> does: the system temporary directory
+        # and the working directory of this run (both inside the sandbox, so that they are observed)
+        old_tmp = (os.environ.get('TMPDIR'), tempfile.tempdir)
+        if job.get('systmp'):
+            os.environ['TMPDIR'] = job['systmp']
+            tempfile.tempdir = None
+            if tempfile.gettempdir() != job['systmp']:
+                raise RuntimeError(f"could not make {job['systmp']} the system temporary directory")
+        if job.get('cwd'):
+            os.chdir(job['cwd'])
         rec['before'] = snapshot(job['roots'])
         undo = _install_fault(job['fault']) if job.get('fault') else None
         buf = io.StringIO()
@@ -546,6 +624,15 @@ def child_main(jobfile):
         _mark('settled', job['label'])
         if undo:
             undo()
+        if job.get('cwd'):
+            os.chdir(home)
+        if job.get('systmp'):
+            if old_tmp[0] is None:
+                os.environ.pop('TMPDIR', None)
+            else:
+                os.environ['TMPDIR'] = old_tmp[0]
+            tempfile.tempdir = old_tmp[1]
+        returned[job['label']] = ret
         rec['after'] = snapshot(job['roots'])
         rec['returned'] = ret
         try:
